@@ -31,6 +31,7 @@ def run(ctx: Ctx):
     repo = ctx.repo
     rules.rule_transition(ctx, "D1")
     ctx.attempt(rules.rule_enter_installs, ctx, "D1")
+    ctx.attempt(rules.rule_acquire_effective, ctx, "D1")  # an instruction that 'succeeds' without taking the plug it names is neither all nor nothing
     ai = repo.func(SSO, "apply_instructions")
     # the instruction path: everything apply_instructions can reach (every activity's enter / exit and their helpers)
     inst_roots = [ai] + [f for f in repo.all_funcs() if f.name == "apply_instruction"]
